@@ -275,7 +275,7 @@ func c11Confine(rc *RuleCtx) {
 		bad := ""
 		for i := 0; i < st.NumFields(); i++ {
 			f := st.Field(i)
-			if f.Name() == "children" || f.Embedded() {
+			if fieldRole(n, i, f.Name()) == "children" || f.Embedded() {
 				continue
 			}
 			if refersToNode(f.Type(), 0) {
